@@ -68,7 +68,12 @@ func (c *Counter[T]) Add(v T) {
 		return
 	}
 	c.buf.Add(v)
-	if c.buf.Len() >= c.cap {
+
+	// Halve until there is room again. A single pass can remove nothing (each
+	// element survives with probability 1/2), which would leave the buffer full
+	// and let the next Add exceed the limit. The emptiness check keeps a
+	// degenerate limit (size ≤ 0) from spinning.
+	for c.buf.Len() >= c.cap && !c.buf.IsEmpty() {
 		// Instead of flipping a coin for each element, grab blocks of 64 random
 		// bits and use them directly, refilling only as needed.
 		var nb, rnd uint64
